@@ -62,6 +62,15 @@ def expect(f, args):
     if f == "tstrcmp":
         a, b = args
         return ("sign", (a > b) - (a < b))
+    if f == "malloc":
+        # the documented allocator: blocks from 0x4001 upwards, the request is refused when the block would not end
+        # strictly below 0xBFFF (two calls are made)
+        n, p = args[0], 0x4001
+        for _ in range(2):
+            if p + n >= 0xBFFF:
+                return ("halts", "out of memory in malloc")
+            p += n
+        return None
     return None
 
 
@@ -83,7 +92,9 @@ def gen_call(rng):
         s = rng.choice(STRINGS)
         args = [s, rng.choice([0, 1, 2, len(s), len(s) + 1, 65535]), rng.choice([0, 1, 2, len(s), len(s) + 1, 65535])]
     else:
-        args = [rng.choice([0, 1, 2, 5, 100])]
+        # small requests, requests that exhaust the heap on the first or on the second call, requests that wrap
+        args = [rng.choice([0, 1, 2, 5, 100, 0x3FFE, 0x3FFF, 0x4000, 0x7000, 0x7FFD, 0x7FFE, 0x7FFF, 0x8000, 0xBFFE, 0xBFFF,
+                            0xC000, 0xFFFE, 0xFFFF])]
     return f, args
 
 
